@@ -39,6 +39,7 @@ REDUCED = [
     ["-  two spaces"],
     ["o P3  2024-02-05 two spaces dated"],
     ["- 240229#Z7 zid of a leap day"],
+    ["- one name under every sigil and as a link #dup @dup %dup +dup [[dup]] dup::dup"],
     ["-  240108#Z9 two blanks before a written zid"],
     ["o P2  240401 240108#ZA two blanks, then stamp and zid"],
     ["- 240203#00 carries the first zid of a date other items are dated with"],
